@@ -86,6 +86,9 @@ def conforms(model, v, depth=0):
         return isinstance(v, dt.timedelta)
     if issubclass(model, ByteArray):
         return isinstance(v, (list, tuple)) and all(isinstance(x, (bytes, memoryview)) for x in v) or isinstance(v, bytes)
+    from spyne.model.primitive import Time as _Time
+    if issubclass(model, _Time):
+        return isinstance(v, dt.time)
     return True
 
 
@@ -412,3 +415,60 @@ def _mk_enum(pname, P):
 
 for _pn, _P in (('XmlDocument', XmlDocument), ('Soap11', Soap11)):
     _mk_enum(_pn, _P)
+
+
+# ------------------------------------------------------------------------------------------ odd literals of every primitive
+
+def _mk_lexical(family, validator):
+    @obligation('C04.lexical_types.%s.%s' % (family, validator or 'none'),
+                targets=['spyne.protocol._inbase:InProtocolBase.from_unicode', 'spyne.protocol.xml:XmlDocument.base_from_element',
+                         'spyne.protocol.http:HttpRpc.decompose_incoming_envelope'],
+                bounded="126 literals of 12 primitive types (canonical forms, redundant signs / zeros / blanks, exponent and "
+                        "special values, other alphabets, near-miss spellings), one argument each",
+                desc="whatever text is sent for a primitive argument, the user function is either not entered or receives a "
+                     "value of exactly the declared native type (an int for an Integer -- not a Decimal or a float --, a "
+                     "date for a Date, ...), or None")
+    def ob(c):
+        from .c06_schema import LEXICAL
+        from urllib.parse import quote
+        tname = c.choose(list(LEXICAL), 'type')
+        mk, lits = LEXICAL[tname]
+        lit = c.choose(lits, 'literal')
+        calls = []
+
+        def check(ctx, x):
+            calls.append(x)
+            return 1
+        check._pyvc_native = True
+        T = mk()
+        Svc = type(ServiceBase)('Svc', (ServiceBase,), {'check': rpc(T, _returns=Integer)(check)})
+        inp, outp = protocols(family, validator)
+        app = Application([Svc], TNS, name='VApp', in_protocol=inp, out_protocol=outp)
+        if family == 'http':
+            env_kw = dict(REQUEST_METHOD='GET', PATH_INFO='/check', QUERY_STRING='x=' + quote(lit.encode('utf8')), body=b'')
+        else:
+            body = (u'<tns:check xmlns:tns="%s"><tns:x>%s</tns:x></tns:check>' % (TNS, lit)).encode('utf8')
+            if family != 'xml':
+                body = soap_env(SOAP11_NS, body.decode('utf8').replace(' xmlns:tns="%s"' % TNS, ''))
+            env_kw = dict(REQUEST_METHOD='POST', PATH_INFO='/', QUERY_STRING='', body=body)
+        body = env_kw.pop('body')
+        env = dict(env_kw, SERVER_NAME='h', SERVER_PORT='80', CONTENT_TYPE='text/xml', CONTENT_LENGTH=str(len(body)))
+        env['wsgi.url_scheme'] = 'http'
+        env['wsgi.input'] = io.BytesIO(body)
+        seen = []
+
+        def sr(status, headers, exc_info=None):
+            seen.append(status)
+        sr._pyvc_native = True
+        out = c.run(WsgiApplication(app), env, sr)
+        c.check('callable_returns', out.returned, detail=repr(out))
+        if out.returned:
+            c.run(lambda: list(out.value))
+        for v in calls:
+            c.check('argument_is_of_the_declared_native_type', conforms(T, v), detail=(tname, lit, type(v).__name__, repr(v)[:80]))
+    return ob
+
+
+for _f in ('xml', 'soap11', 'http'):
+    for _v in ('soft', None):
+        _mk_lexical(_f, _v)
